@@ -61,6 +61,7 @@ OPTS = {
     'noann': {'annotate': False},
     'off': {'generate_for_pack': False, 'generate_for_unpack': False},
     'uonly': {'generate_for_pack': False},
+    'ponly': {'generate_for_unpack': False},
 }
 
 INPUTS = [b'\x00', b'\x7f', b'\xff', b'\x01\x02', b'\xff\xfe', b'\x01x', b'']
